@@ -30,7 +30,8 @@ def directed(judge):
                 elif judge == "C13":
                     out.append({"arch": arch, "prog": [q, {"a": "EnterCalib", "momentum": "m50", "streamline": True}, {"a": "EnterCalib", "momentum": "m90", "streamline": False},
                                                        {"a": "CalibBatch", "batch": "b1"}, {"a": "LibCall"}, {"a": "ForeignBatch"}, {"a": "RaiseIn", "batch": "b2", "k": 1}, {"a": "Forward", "x": "x1"}, {"a": "LibCall"},
-                                                       {"a": "EnterCalib", "momentum": "m25", "streamline": False}, {"a": "ExitCalib"}, {"a": "Forward", "x": "x2"}]})
+                                                       {"a": "EnterCalib", "momentum": "m25", "streamline": False}, {"a": "ExitCalib"}, {"a": "Forward", "x": "x2"},
+                                                       {"a": "Freeze"}, {"a": "Forward", "x": "x1"}]})
                     # the same Calibration object entered again while open, left normally / by exception, then an unrelated forward
                     if aq != "none" and wq in ("qint8", "qint4"):
                         out.append({"arch": arch, "prog": [q, {"a": "EnterCalib", "momentum": "m50", "streamline": False}, {"a": "CalibBatch", "batch": "b1"}, {"a": "ReEnterCalib"},
@@ -138,6 +139,9 @@ def body(c, judge):
         t, i = L.find_event(tr, lambda e: e["act"] == "Forward")
         t[i]["out_again"]["digest"] = "different"
         ctrls.append(("not-deterministic", t))
+        t, i = L.find_event(tr, lambda e: e["act"] == "Freeze")
+        t[i]["float_weights_unchanged"] = False
+        ctrls.append(("freeze-wrote-float-weights", t))
         t, i = L.find_event(tr, lambda e: e["act"] == "LibCall")
         t[i]["inputs_unchanged"] = False
         ctrls.append(("library-call-modifies-input", t))
